@@ -136,6 +136,22 @@ CHECKS = {
          'SimCF parameter-port model; not demanded: non-integral values for integer types, default 2 of a 1-byte parameter '
          '(protocol ambiguity), a duplicate reply answering the next request for the same parameter',
          'DESIGN.md §3 C04', 'E3'),
+ 'C05': ('model_checking',
+         'exhaustive enumeration of variable lists/periods/values plus explicit-state BFS of the log-block life cycle on the real code, plus schedule exploration of SyncLogger',
+         'Thread-free harness (real Crazyflie + real dispatcher loop pumped synchronously + SimCF): 123 variable lists '
+         '(every stored x fetch type, default fetch, 0..27 one-byte variables, payloads 24..28 bytes, ids above 255, a '
+         'missing name at each position, raw-memory variables) x periods on both sides of each limit: acceptance rule, '
+         'nothing sent when rejected, create/append messages decoded by the device model (same variables, once, in order, '
+         '<= 30 bytes, create then appends), flags and start message after the acknowledgements, and data packets with '
+         'extreme values per fetch type and 24-bit timestamps. Life cycle: breadth-first search to depth 4 (quick) / 6 '
+         '(thorough) over add / start / stop / delete / ack with status 0, EEXIST, ENOENT, ENOMEM / duplicate ack / '
+         'reconnect, states de-duplicated on the full implementation + device + model state, invariants: flags and '
+         'state-change callbacks equal the acknowledgement model, start sent on create-ack, variable list unchanged by '
+         're-adding. SyncLogger: consumer thread vs dispatcher vs close/link-fault under the controlled scheduler (every '
+         'single deviation; pairs in thorough): yields a prefix of the samples once each in order and terminates.',
+         'SimCF create/append decode rule and raw-memory record format are my reading of the firmware; only the fetch '
+         'nibble is checked for table variables; notifications of refused create/start (other argument shapes) are not judged',
+         'DESIGN.md §3 C05', 'E2'),
 }
 
 ALL = ['C%02d' % i for i in range(1, 21)]
